@@ -335,6 +335,18 @@ func (a *altRegExp) applyOp(op protoOp) ([]string, error) {
 	case opFreeze:
 		re.Writable = false
 		return one("frozen"), nil
+	case opDerive:
+		r, err := deriveProbe(re, op, func(r *regex.RegExp, s []uint16) (string, error) {
+			m, idx, err := newAlt(r, a.dev).exec(s)
+			if err != nil {
+				return "", err
+			}
+			return renderAltExec(s, m, idx), nil
+		})
+		if err != nil {
+			return nil, err
+		}
+		return one(r), nil
 	case opExec:
 		m, idx, err := a.exec(s)
 		if err != nil {
